@@ -24,6 +24,10 @@ type Scenario struct {
 	// (a node rescans DA from its start height and re-reads the P2P stores).
 	Redelivery []int `json:"redelivery"`
 	Nested     int   `json:"nested"`
+	// RefExec: the full node (and the proposer) run the REAL reference execution layer (apps/testapp
+	// KVExecutor) whose database dies with the process at the same instant; the crash points then include
+	// the executor's own durable writes.
+	RefExec bool `json:"ref_exec,omitempty"`
 }
 
 func gen(t *rapid.T) Scenario {
@@ -83,7 +87,7 @@ func runOnce(sc Scenario, crashEv, crashK, nestedK int, dir string) (res result)
 	res.v = sw.InBubble(func() world.Verdict {
 		root, _ := os.MkdirTemp(dir, "c05")
 		defer os.RemoveAll(root)
-		c, err := fw.BuildChain(world.NodeOpts{ChainID: "c05-chain", InitialHeight: sc.InitialHeight, RootDir: root + "/p"}, sc.Chain)
+		c, err := fw.BuildChain(world.NodeOpts{ChainID: "c05-chain", InitialHeight: sc.InitialHeight, RootDir: root + "/p", RefExec: sc.RefExec}, sc.Chain)
 		if err != nil {
 			return world.Fail("C05/chain", "cannot build the proposer chain: %v", err)
 		}
@@ -227,6 +231,20 @@ func run(sc Scenario, dir string) world.Verdict {
 func TestC05(t *testing.T) {
 	dir := t.TempDir()
 	world.Run(t, "C05", "apply-crash", world.Scale(40, 150), gen, func(sc Scenario) world.Verdict { return run(sc, dir) })
+}
+
+// TestC05ReferenceExecutor: the same exhaustive crash-point enumeration with the reference execution
+// layer of the repository (apps/testapp KVExecutor) instead of the execution double: the executor
+// commits a block to its own database before the node persists anything, so after a crash the node may
+// have to re-execute a block the executor already holds.
+func TestC05ReferenceExecutor(t *testing.T) {
+	dir := t.TempDir()
+	world.Run(t, "C05", "apply-crash-reference-executor", world.Scale(12, 40), func(t *rapid.T) Scenario {
+		sc := gen(t)
+		sc.Chain = c02gen.KVify(sc.Chain)
+		sc.RefExec = true
+		return sc
+	}, func(sc Scenario) world.Verdict { return run(sc, dir) })
 }
 
 // TestC05RealIngress: crash restarts (the in-memory caches are lost) of a full node fed by the
